@@ -41,7 +41,8 @@ ASSUMPTIONS = [
 ]
 RULE = ("exhaustive histories up to length 4/5 over {new Emp, new Mgr, new Org, drop, sweep, query} + fixed families "
         "(re-evaluated query objects, diamond hierarchy, clear, classes defined in the middle of the history after "
-        "their ancestors were queried, temporaries created and discarded back to back) + random histories of 4-18 "
+        "their ancestors were queried, temporaries created and discarded back to back, lazily consumed evaluations advanced "
+        "one next() at a time with instances of the queried class / a subclass created or dropped in between) + random histories of 4-18 "
         "operations over 9 classes plus classes defined on the way, relations, explicit-domain queries; non-trivial = at least one query returned at least one instance; "
         "distinct by case text")
 
@@ -100,6 +101,28 @@ def generate(rng, tier, n):
             cases.append(_case([["churn", 0, k, c], ["new", 50, c], ["query", c], ["churn", 60, k, c], ["query", 0],
                                 ["drop", 50], ["churn", 80, k, c], ["new", 95, c], ["query", c]],
                                ("family", "churn"), "exhaustive"))
+    # lazily consumed evaluations: instances of the queried class / of a subclass created (or dropped) between two
+    # next() calls; T walks [T] + recursive_subclasses(T) and copies a class list when it reaches the class
+    for T, sub in ((2, 3), (4, 5), (4, 6), (0, 1), (0, 2), (5, 7)):
+        for k in (1, 2, 3):
+            pre = [["new", i, T] for i in range(k)] + [["new", 10, sub]]
+            nexts = [["qnext", 1]] * (k + 4)
+            # created while the class being walked is T: the new T must not be yielded
+            cases.append(_case(pre + [["qstart", 1, T], ["qnext", 1], ["new", 20, T]] + nexts + [["query", T]],
+                               ("family", "stepwise"), "exhaustive"))
+            cases.append(_case(pre + [["qstart", 1, T], ["new", 20, T], ["qnext", 1], ["new", 21, T], ["qnext", 1],
+                                      ["new", 22, T]] + nexts + [["query", T]], ("family", "stepwise"), "exhaustive"))
+            # created in a class that is walked later
+            cases.append(_case(pre + [["qstart", 1, T], ["qnext", 1], ["new", 20, sub], ["new", 21, T]] + nexts,
+                               ("family", "stepwise"), "exhaustive"))
+            # dropped / swept while suspended
+            cases.append(_case(pre + [["qstart", 1, T], ["qnext", 1], ["drop", 10]] + nexts, ("family", "stepwise"), "exhaustive"))
+            cases.append(_case(pre + [["qstart", 1, T], ["qnext", 1], ["drop", 0], ["sweep"]] + nexts + [["query", T]],
+                               ("family", "stepwise"), "exhaustive"))
+        # two evaluations in flight, one creating instances for the other (what interleaved rule evaluations do)
+        cases.append(_case([["new", 0, T], ["new", 1, T], ["qstart", 1, T], ["qstart", 2, T], ["qnext", 1], ["new", 2, T],
+                            ["qnext", 2], ["new", 3, T], ["qnext", 1], ["qnext", 2], ["qnext", 1], ["qnext", 2],
+                            ["qnext", 1], ["qnext", 2], ["qnext", 1], ["qnext", 2]], ("family", "stepwise"), "exhaustive"))
     for c in (2, 3, 7):
         for k in (1, 4):
             cases.append(_case([["churn", 0, k, c], ["new", 50, c], ["sweep"], ["rel", 4, 50, 50], ["query", c],
@@ -108,13 +131,17 @@ def generate(rng, tier, n):
     for _ in range(n):
         g = _sg.Gen(rng, classes=rng.choice([(1, 2, 3), (1, 2, 3), (0, 1, 2, 3, 4, 5, 6, 7), (2, 3), (4, 5, 6, 7)]))
         ops = g.history(rng.randint(4, 18), w_query=3.0, w_clear=0.3, w_defclass=rng.choice([0.0, 0.8, 1.5]),
-                        w_churn=rng.choice([0.0, 0.0, 0.6]))
+                        w_churn=rng.choice([0.0, 0.0, 0.6]), w_step=rng.choice([0.0, 0.0, 3.0, 5.0]))
+        for key in g.iter_keys:
+            ops += [["qnext", key]] * rng.randint(0, 6)
         ops.append(["query", rng.choice([0, 2])])
         tags = ["random"]
         if any(op[0] == "defclass" for op in ops):
             tags.append("late-class")
         if any(op[0] == "churn" for op in ops):
             tags.append("churn")
+        if any(op[0] == "qstart" for op in ops):
+            tags.append("stepwise")
         if any(op[0] == "clear" for op in ops):
             tags.append("clear")
         if any(op[0] == "evalq" for op in ops):
@@ -135,7 +162,7 @@ def compare(a: str, b: str) -> bool:
 
 
 def nontrivial(case: Case, spec: str) -> bool:
-    return "(new" in case.line and ("query" in case.line or "evalq" in case.line)
+    return "(new" in case.line and ("query" in case.line or "evalq" in case.line or "qnext" in case.line)
 
 
 def shrink(case: Case):
